@@ -14,7 +14,7 @@ from pathlib import Path
 from vlib import diffexec
 
 
-def differential(workdir, orig_sources, new_sources, driver, stdins, rtol=1e-9, atol=1e-9, timeout=20):
+def differential(workdir, orig_sources, new_sources, driver, stdins, rtol=1e-9, atol=1e-9, timeout=120):
     """
     status: equal | differ | runtime (transformed program stopped with a run-time report / non-zero exit) |
             orig_bad | new_build_fail | new_timeout
